@@ -174,6 +174,16 @@ func runDKGLifecycle(t *testing.T, rc *RunCtx) {
 	co := &coordinator{c: c}
 	nodes := c.Nodes
 	accts := []string{"Wallet 3/life-a", "Wallet 3/life-b", "Wallet 3/life-c"}[:1+ch.Pick(3, 0)]
+	// A sixth of the runs range over many names (9-24): however many generations were opened and left behind, each
+	// name has a lifecycle of its own.
+	many := ch.Pick(6, 0) == 5
+	if many {
+		accts = nil
+		for i, k := 0, 9+ch.Pick(16, 0); i < k; i++ {
+			accts = append(accts, fmt.Sprintf("Wallet 3/life-%02d", i))
+		}
+		rc.Stats.Inc("life_runs_over_many_names", 1)
+	}
 	const th = 2
 	ref := map[string]*lifeRef{}
 	get := func(n *Node, a string) *lifeRef {
@@ -238,22 +248,42 @@ func runDKGLifecycle(t *testing.T, rc *RunCtx) {
 	// A fifth of the runs start with a scripted prefix: a complete generation of the first name, then a second
 	// complete round for the same name up to (and including) a commit that has everything it needs except that
 	// the account already exists.  The random events that follow meet the state this leaves behind.
-	type forced struct{ node, kind int }
+	type forced struct{ node, kind, acct int }
 	var script []forced
-	if ch.Pick(5, 0) == 4 {
+	if many {
+		// Scripted prefix: generations for the first m names are opened on one instance (or on all) and left behind;
+		// half of the time the clock then moves past the timeout.
+		m := 1 + ch.Pick(len(accts), 0)
+		everywhere := ch.Pick(2, 0) == 1
+		at := ch.Pick(len(nodes), 0)
+		for i := 0; i < m; i++ {
+			if everywhere {
+				for k := range nodes {
+					script = append(script, forced{k, 0, i})
+				}
+			} else {
+				script = append(script, forced{at, 0, i})
+			}
+		}
+		if ch.Pick(2, 0) == 1 {
+			script = append(script, forced{at, 100, 0})
+		}
+		nEvents += len(script)
+		rc.Stats.Inc("life_generations_left_behind", int64(m))
+	} else if ch.Pick(5, 0) == 4 {
 		for round := 0; round < 2; round++ {
 			for i := range nodes {
-				script = append(script, forced{i, 0})
+				script = append(script, forced{i, 0, 0})
 			}
 			for i := range nodes {
-				script = append(script, forced{i, 3})
+				script = append(script, forced{i, 3, 0})
 			}
 			if round == 0 {
 				for i := range nodes {
-					script = append(script, forced{i, 5})
+					script = append(script, forced{i, 5, 0})
 				}
 			} else {
-				script = append(script, forced{ch.Pick(len(nodes), 0), 5})
+				script = append(script, forced{ch.Pick(len(nodes), 0), 5, 0})
 			}
 		}
 		nEvents += len(script)
@@ -268,7 +298,7 @@ func runDKGLifecycle(t *testing.T, rc *RunCtx) {
 		kind := ch.Pick(12, 0)
 		scripted := ev < len(script)
 		if scripted {
-			n, a, kind = nodes[script[ev].node], accts[0], script[ev].kind
+			n, a, kind = nodes[script[ev].node], accts[script[ev].acct], script[ev].kind
 		}
 		r := get(n, a)
 		// Bias towards the legitimate order so that deep states are reached.
@@ -361,7 +391,11 @@ func runDKGLifecycle(t *testing.T, rc *RunCtx) {
 			}
 		default: // clock advance: short, exactly to the boundary of some session, just past it, far
 			var d time.Duration
-			switch ch.Pick(4, 0) {
+			far := 3
+			if !(scripted && kind == 100) {
+				far = ch.Pick(4, 0)
+			}
+			switch far {
 			case 0:
 				d = timeout / 3
 			case 1, 2:
